@@ -32,7 +32,9 @@ TraceReset ==
   /\ IsEvent("Reset")
   /\ ev' = Null /\ bal' = <<>> /\ prenonce' = 0 /\ applied' = {}
   /\ redeemed' = {} /\ fresh' = TRUE
-  /\ nonce' = IF "nonces" \in DOMAIN Trace[l] THEN PutPairs(<<>>, Trace[l].nonces, 1) ELSE <<>>
+  \* a family whose own Reset already uses a field "nonces" (bridge: ethereum nonces) logs the ledger's as "nonces_ledger"
+  /\ nonce' = IF "nonces_ledger" \in DOMAIN Trace[l] THEN PutPairs(<<>>, Trace[l].nonces_ledger, 1)
+            ELSE IF "nonces" \in DOMAIN Trace[l] THEN PutPairs(<<>>, Trace[l].nonces, 1) ELSE <<>>
 
 (* Ledger!Summary specialised to tracked state: an accepted transaction    *)
 (* raises exactly the sender's nonce by one and moves balances by the      *)
